@@ -94,6 +94,13 @@ Defs == [
   TD8 |-> [flavour |-> "typeddict_inh3", module |-> "m1", py |-> "TD8", fields |-> << <<"id", P("int"), FALSE>>, <<"body", P("str"), TRUE>>, <<"kind", P("date"), FALSE>> >>],
   \* a required key / member whose type admits None (present-and-None is not absent)
   TD9 |-> [flavour |-> "typeddict",    module |-> "m1", py |-> "TD9", fields |-> << <<"user", P("str"), FALSE>>, <<"nick", Opt(P("str")), FALSE>> >>],
+  \* a dataclass in m2 derived from m1's R1: the inherited member `nxt` is annotated with the text "R1" in m1 -- and m2 binds the
+  \* name R1 to another class (R1b); an inherited annotation means what it means where it was written
+  X1  |-> [flavour |-> "dataclass",    module |-> "m2", py |-> "X1",  base |-> "R1",
+           fields |-> << <<"v", P("int"), FALSE>>, <<"nxt", Opt(Cls("R1")), TRUE>>, <<"note", Opt(P("date")), TRUE>> >>],
+  \* the same, the derived class keeping the very name of its base (class Text(m1.Text) in m2)
+  X2  |-> [flavour |-> "dataclass",    module |-> "m2", py |-> "Text", base |-> "R2",
+           fields |-> << <<"v", P("int"), FALSE>>, <<"nxt", Opt(Cls("R2")), TRUE>>, <<"note", Opt(P("date")), TRUE>> >>],
   \* a dataclass whose instances are falsy (a status object, an empty page: __bool__ / __len__ belong to the value, not to its type)
   F1  |-> [flavour |-> "dc_falsy",     module |-> "m1", py |-> "F1",  fields |-> << <<"n", P("int"), FALSE>>, <<"at", P("date"), FALSE>> >>],
   \* a dataclass whose instances can be called (a structured class like any other)
